@@ -32,6 +32,9 @@ func mk(ctor string, args []interface{}) Obj {
 func New(args ...interface{}) *Obj   { o := mk("New", args); return &o }
 func NewVal(args ...interface{}) Obj { return mk("NewVal", args) }
 
+// MkVal returns the package's small value type (the Val types of all fixture packages are convertible into each other: same fields)
+func MkVal(args ...interface{}) Val { return Val{N: 40 + len(args), S: PkgID} }
+
 // NewTouch is New for a user who writes into the objects handed to the constructor.
 func NewTouch(args ...interface{}) *Obj {
 	for _, a := range args {
